@@ -291,4 +291,17 @@ def explainItem (cfg : Cfg) (tick : Nat) (p : Payload) (script : List Res) (cs :
   else if !stagedRight p script perf then "terminal result of a unit of work is not what the node stages for it"
   else "ok"
 
+/-! ## the batch limit must not starve: many calls, all records due at each -/
+
+/-- how many calls make "never within the first `n`" practically impossible under Go's randomised map iteration
+(the range starts at a uniformly random slot; with at most 16 records the table has at most 32 slots, so a record
+is FIRST with probability ≥ 1/32 in every call: (31/32)^1000 < 2·10⁻¹⁴) -/
+def fairRounds : Nat := 1000
+
+/-- `d` records that are due at every one of `k` calls of `Dequeue(n)`: every call hands out `min n d` of them,
+nothing else, and — over `fairRounds` calls or more — every record at least once -/
+def fairOk (d n k : Nat) (counts : List Nat) (short foreign : Nat) : Bool :=
+  decide (short = 0) && decide (foreign = 0) && decide (counts.length = d) && decide (counts.sum = k * min n d) &&
+  (decide (k < fairRounds) || decide (16 < d) || counts.all (fun c => decide (1 ≤ c)))
+
 end AutoVerif.C12
